@@ -619,7 +619,9 @@ def cases(tier):
     cs += [H1Tempo(4, 1), H1Tempo(3, None, dt=1.0, ncalls=2), H1MeanField(3, 1), H1PtTebd(4), H1PtTebdReal(2)]
     # H2 fault injection (tempo_hamiltonian_fault, meanfield_fault_in_compute_field: expected defects)
     cs += [H2Tempo(3, 1), H2MeanField("before_network", 2, 1), H2MeanField("in_compute_field", 2, 1, pre=False),
-           H2MeanField("before_network", 2, 1, pre=False, nsys=2)]
+           H2MeanField("before_network", 2, 1, pre=False, nsys=2),
+           # fault inside the FIRST step of a fresh object (step counter 0), no memory cut-off, steps after the retry
+           H2MeanField("in_compute_field", 3, None, pre=False), H2Tempo(3, None, pre=False)]
     # H3 fixed-end methods (pt_tempo_compute_when_finished, gibbs_compute_twice: expected defects)
     cs += [H3PtTempo(q, 3, K) for q in _PT_SEQS for K in (None, 1)]
     cs += [H3Gibbs(2, "zero"), H3Gibbs(3, "zero"), H3Gibbs(3, "sym"), H3Gibbs(4, "zero", calls=3)]
@@ -629,8 +631,8 @@ def cases(tier):
     if tier == "thorough":
         cs += [H1Tempo(4, 2), H1Tempo(4, None, ncalls=2), H1Tempo(4, 1, tau_add=True), H1Tempo(5, 2, dt=1.0),
                H1MeanField(3, None, ncalls=2), H1MeanField(4, 2, ncalls=2), H1PtTebd(5), H1PtTebdReal(3, sites=2, ptbond=2), H1PtTebdReal(2, sites=3, chi=2, ptbond=2)]
-        cs += [H2Tempo(4, 2), H2Tempo(3, None), H2Tempo(4, 1, pre=False), H2MeanField("before_network", 3, 1),
-               H2MeanField("in_compute_field", 2, 1), H2MeanField("in_compute_field", 3, None, pre=False),
+        cs += [H2Tempo(4, 2), H2Tempo(3, None), H2Tempo(4, 1, pre=False), H2Tempo(4, None, pre=False), H2MeanField("before_network", 3, 1),
+               H2MeanField("in_compute_field", 2, 1), H2MeanField("in_compute_field", 4, 2, pre=False),
                H2MeanField("before_network", 2, 1, nsys=2), H2MeanField("in_compute_field", 2, 1, pre=False, nsys=2),
                H2MeanField("before_network", 2, None, pre=False, nsys=3), H1MeanField(2, 1, ncalls=2, nsys=2)]
         cs += [H3PtTempo(q, 4, 2) for q in _PT_SEQS] + [H3PtTempo("compute_get_get", 4, 1), H3PtTempo("get_twice", 4, None)]
